@@ -117,6 +117,8 @@ Proof.
     rewrite E. cbn [fst snd]. subst x. auto.
   - unfold step_res. unfold with_tree. cbn [st_tree released]. rewrite Et.
     unfold spec_step. rewrite Em. cbn [fst snd]. split; auto.
+    cbn [released st_copy st_iters st_rc st_held release fold_left].
+    unfold released in HR1. rewrite Et in HR1. exact HR1.
 Qed.
 
 Lemma released_tree : forall s, st_tree (released s) = st_tree s.
@@ -132,12 +134,18 @@ Proof.
   rewrite !cnt_app, cnt_nil. lia.
 Qed.
 
+Lemma release_nil : forall rc, release rc [] = rc.
+Proof. reflexivity. Qed.
+
 Ltac start_op :=
   let t := fresh "t" in let m := fresh "m" in
   intros; apply refines_intro; [assumption|];
   intros t m Et Em I Etm HR1;
   pose proof (R_rc0 HR1) as Hrc; rewrite Et in Hrc; cbn [orefs] in Hrc;
   unfold step_res, with_tree; cbn [released st_tree st_copy st_iters st_rc st_held]; rewrite Et;
+  rewrite ?release_nil; cbn [released st_rc] in Hrc;
+  let HR1n := fresh "HR1n" in
+  pose proof HR1 as HR1n; unfold released in HR1n; rewrite Et in HR1n;
   unfold spec_step; rewrite Em.
 
 (* ------------------------------------------------------------------ *)
@@ -163,13 +171,13 @@ Proof.
   destruct (m_get m z) as [v|]; cbn [fst snd].
   - eexists. eexists. split; [reflexivity|]. split; [|reflexivity].
     constructor; cbn [set_tree st_tree st_copy st_iters st_rc st_held].
-    + rewrite Em. split; auto.
+    + rewrite ?Em. split; auto.
     + apply (r_copy HR1).
     + exact Ri.
     + intros o. rewrite rc_get_incref, Hrc. cbn [orefs map]. rewrite !cnt_app, cnt_cons, cnt_nil. lia.
   - eexists. eexists. split; [reflexivity|]. split; [|reflexivity].
     constructor; cbn [set_tree st_tree st_copy st_iters st_rc st_held].
-    + rewrite Em. split; auto.
+    + rewrite ?Em. split; auto.
     + apply (r_copy HR1).
     + exact Ri.
     + intros o. rewrite Hrc. cbn [orefs map]. rewrite !cnt_app, cnt_nil. lia.
@@ -190,7 +198,8 @@ Proof.
   pose proof (ci_cap I) as Hcap.
   destruct (@C.SimTree.sim_tree_delitem t rc z (abs (root t)) rc false) as (t2 & E2 & Ea & _);
     auto; try lia; [apply (ci_wf I)|apply (ord_nsorted (ci_ord I))|].
-  rewrite E in E2. inversion E2; subst. exists t2. repeat split; auto.
+  rewrite E in E2. assert (t' = t2 /\ rc2 = rc) as (-> & ->) by (split; congruence).
+  exists t2. split; [exact E|]. split; [exact I'|]. split; [exact Ea|]. split; [exact Emod|].
   unfold tree_map. rewrite Ea. reflexivity.
 Qed.
 
@@ -212,7 +221,7 @@ Proof.
     destruct (@tree_delitem_absent t (release (st_rc s) (st_held s)) z I Eg) as (t' & E & I' & Ea & Emod & Em').
     rewrite E. cbn [bind fst snd]. eexists. eexists. split; [reflexivity|]. split; [|reflexivity].
     constructor; cbn [set_tree st_tree st_copy st_iters st_rc st_held].
-    + rewrite Em. split; auto. congruence.
+    + rewrite ?Em. split; auto. congruence.
     + apply (r_copy HR1).
     + apply iters_rel_same with (t := t); auto.
     + intros o. rewrite Hrc. cbn [orefs map]. rewrite Ea. rewrite !cnt_app, cnt_nil. lia.
@@ -226,7 +235,7 @@ Proof.
   pose proof (r_iters HR1) as Ri. cbn [released st_tree st_iters] in Ri. rewrite Et in Ri.
   eexists. eexists. split; [reflexivity|]. split; [|reflexivity].
   constructor; cbn [set_tree st_tree st_copy st_iters st_rc st_held].
-  - rewrite Em. split; auto.
+  - rewrite ?Em. split; auto.
   - apply (r_copy HR1).
   - exact Ri.
   - intros o. rewrite Hrc', Hrc. cbn [orefs map]. rewrite !cnt_app, cnt_nil. lia.
@@ -235,10 +244,191 @@ Qed.
 Lemma refines_OLen : forall s a, R s a -> refines s a OLen.
 Proof.
   start_op. rewrite (tree_length_ok I), Etm.
-  eexists. eexists. split; [reflexivity|]. split; [|reflexivity]. exact HR1.
+  eexists. eexists. split; [reflexivity|]. split; [|reflexivity]. exact HR1n.
 Qed.
 
 Lemma refines_WCapacity : forall s a, R s a -> refines s a WCapacity.
 Proof.
-  start_op. eexists. eexists. split; [reflexivity|]. split; [|reflexivity]. exact HR1.
+  start_op. eexists. eexists. split; [reflexivity|]. split; [|reflexivity]. exact HR1n.
+Qed.
+
+(* ------------------------------------------------------------------ *)
+(* iterator handles *)
+Lemma refines_OItNew : forall s a h inc, R s a -> refines s a (OItNew h inc).
+Proof.
+  start_op.
+  destruct (@iter_new_ok t inc I) as (it & E & Einc & Est & Hat).
+  rewrite E. cbn [bind]. eexists. eexists. split; [reflexivity|]. split; [|reflexivity].
+  pose proof (r_iters HR1n) as Ri. cbn [st_tree st_iters] in Ri.
+  constructor; cbn [st_tree st_copy st_iters st_rc st_held a_map a_copy a_iters].
+  - rewrite ?Em. split; auto.
+  - apply (r_copy HR1n).
+  - apply iters_store; auto. unfold iter_rel. cbn [ai_valid ai_pos ai_inc].
+    rewrite Est, Nat.eqb_refl. repeat split; auto.
+  - apply (r_rc HR1n).
+Qed.
+
+Lemma refines_OItDrop : forall s a h, R s a -> refines s a (OItDrop h).
+Proof.
+  start_op. eexists. eexists. split; [reflexivity|]. split; [|reflexivity].
+  pose proof (r_iters HR1n) as Ri. cbn [st_tree st_iters] in Ri.
+  constructor; cbn [st_tree st_copy st_iters st_rc st_held a_map a_copy a_iters].
+  - rewrite ?Em. split; auto.
+  - apply (r_copy HR1n).
+  - apply iters_remove; auto.
+  - apply (r_rc HR1n).
+Qed.
+
+Lemma refines_OItNext : forall s a h, R s a -> refines s a (OItNext h).
+Proof.
+  start_op.
+  pose proof (r_iters HR1n) as Ri. cbn [st_tree st_iters] in Ri.
+  pose proof (iters_lookup h Ri) as Hl.
+  destruct (it_lookup (st_iters s) h) as [it|]; destruct (ai_lookup (a_iters a) h) as [ai|]; try contradiction.
+  2:{ eexists. eexists. split; [reflexivity|]. split; [|reflexivity]. exact HR1n. }
+  destruct Hl as (Hinc & Hle & Hv & Hat).
+  destruct (ai_valid ai) eqn:Ev.
+  - (* fresh iterator *)
+    symmetry in Hv. apply Nat.eqb_eq in Hv. specialize (Hat eq_refl).
+    destruct (@iter_next_ok t (release (st_rc s) (st_held s)) it (ai_pos ai) I Hv Hat)
+      as (it' & E & Einc & Est & Hat').
+    rewrite E. cbn [bind]. rewrite Etm in *. unfold expected_out in *. rewrite Hinc in *.
+    destruct (nth_error m (ai_pos ai)) as [[k v]|] eqn:En.
+    + assert (Hp : ai_pos ai < length m) by (eapply nth_error_Some_lt; eauto).
+      destruct (Nat.ltb_spec (ai_pos ai) (length m)); [|lia].
+      eexists. eexists. split; [reflexivity|]. split.
+      * constructor; cbn [st_tree st_copy st_iters st_rc st_held a_map a_copy a_iters fst].
+        -- rewrite ?Em. split; auto.
+        -- apply (r_copy HR1n).
+        -- apply iters_store; auto. unfold iter_rel. cbn [ai_valid ai_pos ai_inc].
+           rewrite Einc, Est, Hv, Nat.eqb_refl. repeat split; auto.
+        -- intros o. destruct (ai_inc ai); cbn [expected_rc refs_of flat_map app map];
+             rewrite ?rc_get_incref, Hrc; cbn [orefs]; rewrite !cnt_app, ?cnt_cons, cnt_nil; lia.
+      * destruct (ai_inc ai); reflexivity.
+    + destruct (Nat.ltb_spec (ai_pos ai) (length m)) as [Hlt|Hge].
+      { apply nth_error_None in En. lia. }
+      eexists. eexists. split; [reflexivity|]. split; [|reflexivity].
+      constructor; cbn [st_tree st_copy st_iters st_rc st_held a_map a_copy a_iters fst].
+      * rewrite ?Em. split; auto.
+      * apply (r_copy HR1n).
+      * apply iters_store; auto. unfold iter_rel.
+        rewrite Einc, Est, Hv, Nat.eqb_refl. repeat split; auto.
+      * intros o. cbn [expected_rc refs_of flat_map app map]. apply (r_rc HR1n).
+  - (* stale iterator: the stamp test fails before anything is read *)
+    symmetry in Hv. apply Nat.eqb_neq in Hv.
+    rewrite (@iter_fail_fast t (release (st_rc s) (st_held s)) it Hv). cbn [bind].
+    eexists. eexists. split; [reflexivity|]. split; [|reflexivity].
+    constructor; cbn [st_tree st_copy st_iters st_rc st_held a_map a_copy a_iters fst].
+    + rewrite ?Em. split; auto.
+    + apply (r_copy HR1n).
+    + apply iters_store; auto. unfold iter_rel. rewrite Ev.
+      split; [auto|]. split; [auto|]. split; [symmetry; apply Nat.eqb_neq; auto|discriminate].
+    + intros o. cbn [refs_of flat_map app map]. apply (r_rc HR1n).
+Qed.
+
+(* ------------------------------------------------------------------ *)
+(* list(iterator) *)
+Definition out_of (inc : bool) (e : key * key) : next_out :=
+  if inc then NItem (fst e) (snd e) else NKey (fst e).
+Definition outs_of (inc : bool) (l : list (key * key)) : list next_out := map (out_of inc) l.
+
+Lemma keys_of_outs : forall inc l, keys_of (outs_of inc l) = map fst l.
+Proof. induction l as [|e l IH]; cbn; auto. destruct inc; cbn; f_equal; auto. Qed.
+Lemma items_of_outs : forall l, items_of (outs_of true l) = l.
+Proof. induction l as [|[k v] l IH]; cbn; auto. f_equal; auto. Qed.
+Lemma refs_of_keys : forall l, refs_of (outs_of false l) = map fst l.
+Proof. induction l as [|e l IH]; cbn; auto. f_equal; auto. Qed.
+Lemma cnt_refs_items : forall l o,
+  cnt (map kid (refs_of (outs_of true l))) o = (cnt (map kid (map fst l)) o + cnt (map kid (map snd l)) o)%Z.
+Proof.
+  induction l as [|[k v] l IH]; intros o; cbn [outs_of map out_of refs_of flat_map app fst snd].
+  - rewrite !cnt_nil. lia.
+  - fold (outs_of true l). fold (refs_of (outs_of true l)). rewrite !cnt_cons, IH. lia.
+Qed.
+
+Lemma drain_ok : forall fuel t rc it p acc,
+  CInv t -> it_stamp it = modc t -> it_at (abs (root t)) (it_cur it) (it_idx it) p ->
+  p <= length (tree_map t) -> length (tree_map t) - p < fuel ->
+  exists rc', drain fuel t rc it acc =
+      Ok (rc', rev acc ++ outs_of (it_inc it) (skipn p (tree_map t)), NStop) /\
+    forall o, rc_get rc' o =
+      (rc_get rc o + cnt (map kid (refs_of (outs_of (it_inc it) (skipn p (tree_map t))))) o)%Z.
+Proof.
+  induction fuel as [|f IH]; intros t rc it p acc I Hst Hat Hp Hf; [lia|].
+  destruct (@iter_next_ok t rc it p I Hst Hat) as (it' & E & Einc & Est & Hat').
+  cbn [drain]. rewrite E. cbn [bind]. unfold expected_out in *.
+  destruct (nth_error (tree_map t) p) as [[k v]|] eqn:En.
+  - assert (Hlt : p < length (tree_map t)) by (eapply nth_error_Some_lt; eauto).
+    destruct (Nat.ltb_spec p (length (tree_map t))); [|lia].
+    rewrite (Rust.InsertLocal.skipn_nth_cons _ _ En).
+    destruct (IH t (expected_rc rc (if it_inc it then NItem k v else NKey k)) it' (S p)
+                 ((if it_inc it then NItem k v else NKey k) :: acc) I) as (rc' & Ed & Hrc');
+      auto; try lia; try congruence.
+    rewrite Einc in Ed, Hrc'.
+    destruct (it_inc it) eqn:Ei.
+    + rewrite Ed. exists rc'. split.
+      * cbn [rev outs_of map out_of fst snd]. rewrite <- app_assoc. reflexivity.
+      * intros o. rewrite Hrc'. unfold refs_of, outs_of. cbn [expected_rc map out_of fst snd flat_map app].
+        rewrite !rc_get_incref, !cnt_cons. lia.
+    + rewrite Ed. exists rc'. split.
+      * cbn [rev outs_of map out_of fst snd]. rewrite <- app_assoc. reflexivity.
+      * intros o. rewrite Hrc'. unfold refs_of, outs_of. cbn [expected_rc map out_of fst snd flat_map app].
+        rewrite !rc_get_incref, !cnt_cons. lia.
+  - apply nth_error_None in En. assert (p = length (tree_map t)) by lia. subst p.
+    rewrite skipn_all. cbn [outs_of map refs_of flat_map expected_rc]. rewrite app_nil_r.
+    exists rc. split; [reflexivity|]. intros o. rewrite cnt_nil. lia.
+Qed.
+
+(* a fresh iterator drained: all entries, all references *)
+Lemma drain_all : forall t rc inc, CInv t ->
+  exists it rc', iter_new t inc = Ok it /\
+    drain (drain_fuel t) t rc it [] = Ok (rc', outs_of inc (tree_map t), NStop) /\
+    forall o, rc_get rc' o = (rc_get rc o + cnt (map kid (refs_of (outs_of inc (tree_map t)))) o)%Z.
+Proof.
+  intros t rc inc I. destruct (@iter_new_ok t inc I) as (it & E & Einc & Est & Hat).
+  destruct (@drain_ok (drain_fuel t) t rc it 0 [] I Est Hat) as (rc' & Ed & Hrc'); try lia.
+  { unfold drain_fuel. rewrite (ci_size I). fold (tree_map t). lia. }
+  rewrite Einc in *. cbn [skipn rev app] in *. exists it, rc'. auto.
+Qed.
+
+Lemma refines_OKeys : forall s a, R s a -> refines s a OKeys.
+Proof.
+  start_op.
+  destruct (@drain_all t (release (st_rc s) (st_held s)) false I) as (it & rc' & E & Ed & Hrc').
+  rewrite E. cbn [bind]. rewrite Ed. cbn [bind]. rewrite Etm in *.
+  eexists. eexists. split; [reflexivity|]. rewrite keys_of_outs. split; [|reflexivity].
+  pose proof (r_iters HR1n) as Ri. cbn [st_tree st_iters] in Ri.
+  constructor; cbn [set_tree st_tree st_copy st_iters st_rc st_held a_map a_copy a_iters fst].
+  - rewrite ?Em. split; auto.
+  - apply (r_copy HR1n).
+  - exact Ri.
+  - intros o. rewrite Hrc', Hrc. cbn [orefs]. rewrite !cnt_app. lia.
+Qed.
+
+Lemma refines_OItems : forall s a, R s a -> refines s a OItems.
+Proof.
+  start_op.
+  destruct (@drain_all t (release (st_rc s) (st_held s)) true I) as (it & rc' & E & Ed & Hrc').
+  rewrite E. cbn [bind]. rewrite Ed. cbn [bind]. rewrite Etm in *.
+  eexists. eexists. split; [reflexivity|]. rewrite items_of_outs. split; [|reflexivity].
+  pose proof (r_iters HR1n) as Ri. cbn [st_tree st_iters] in Ri.
+  constructor; cbn [set_tree st_tree st_copy st_iters st_rc st_held a_map a_copy a_iters fst].
+  - rewrite ?Em. split; auto.
+  - apply (r_copy HR1n).
+  - exact Ri.
+  - intros o. rewrite Hrc', Hrc. cbn [orefs]. rewrite !cnt_app. lia.
+Qed.
+
+Lemma refines_WValues : forall s a, R s a -> refines s a WValues.
+Proof.
+  start_op.
+  destruct (@drain_all t (release (st_rc s) (st_held s)) true I) as (it & rc' & E & Ed & Hrc').
+  rewrite E. cbn [bind]. rewrite Ed. cbn [bind]. rewrite Etm in *.
+  eexists. eexists. split; [reflexivity|]. rewrite items_of_outs, keys_of_outs. split; [|reflexivity].
+  pose proof (r_iters HR1n) as Ri. cbn [st_tree st_iters] in Ri.
+  constructor; cbn [set_tree st_tree st_copy st_iters st_rc st_held a_map a_copy a_iters fst].
+  - rewrite ?Em. split; auto.
+  - apply (r_copy HR1n).
+  - exact Ri.
+  - intros o. rewrite rc_get_release, Hrc', Hrc, cnt_refs_items. cbn [orefs]. rewrite !cnt_app. lia.
 Qed.
